@@ -227,6 +227,7 @@ static void dump(int rc, char **fnames, int nf)
 		printf("%s%d", i ? "." : "", ex_lbuf()->mark[i]);
 	printf("|");
 	hx_put(stdout, xkwd, strlen(xkwd));
+	printf(".%d", xkwddir);
 	printf("|%d", faults_fired);
 }
 
